@@ -139,6 +139,28 @@ async fn read_frame<R: tokio::io::AsyncRead + Unpin>(r: &mut R) -> Option<Value>
     }
 }
 
+fn full_client_capabilities() -> Value {
+    json!({
+        "workspace": {"applyEdit": true, "configuration": true, "workspaceFolders": true,
+                      "didChangeWatchedFiles": {"dynamicRegistration": true}, "didChangeConfiguration": {"dynamicRegistration": true},
+                      "inlayHint": {"refreshSupport": true}, "semanticTokens": {"refreshSupport": true}, "codeLens": {"refreshSupport": true},
+                      "diagnostics": {"refreshSupport": true}, "inlineValue": {"refreshSupport": true},
+                      "fileOperations": {"dynamicRegistration": true, "didCreate": true, "didRename": true, "didDelete": true}},
+        "textDocument": {"synchronization": {"dynamicRegistration": true, "willSave": true, "didSave": true},
+                         "publishDiagnostics": {"relatedInformation": true, "versionSupport": true, "codeDescriptionSupport": true, "dataSupport": true,
+                                                "tagSupport": {"valueSet": [1, 2]}},
+                         "completion": {"dynamicRegistration": true, "contextSupport": true, "completionItem": {"snippetSupport": true}},
+                         "hover": {"dynamicRegistration": true, "contentFormat": ["markdown", "plaintext"]},
+                         "definition": {"dynamicRegistration": true, "linkSupport": true}, "references": {"dynamicRegistration": true},
+                         "documentSymbol": {"dynamicRegistration": true, "hierarchicalDocumentSymbolSupport": true},
+                         "foldingRange": {"dynamicRegistration": true, "lineFoldingOnly": false}, "documentLink": {"dynamicRegistration": true, "tooltipSupport": true},
+                         "inlayHint": {"dynamicRegistration": true, "resolveSupport": {"properties": ["tooltip", "label.location"]}},
+                         "diagnostic": {"dynamicRegistration": true, "relatedDocumentSupport": false}},
+        "window": {"workDoneProgress": true, "showMessage": {"messageActionItem": {"additionalPropertiesSupport": true}}, "showDocument": {"support": true}},
+        "general": {"positionEncodings": ["utf-16"], "staleRequestSupport": {"cancel": true, "retryOnContentModified": []}}
+    })
+}
+
 fn uri_of(dir: &str, file: &str) -> String {
     format!("file://{}/{}", dir, file)
 }
@@ -207,6 +229,7 @@ pub fn session_item(item: &Value) -> Value {
     let quiet_ms = item.get("quiet_ms").and_then(|x| x.as_u64()).unwrap_or(20000);
     let arrive_ms = item.get("arrive_ms").and_then(|x| x.as_u64()).unwrap_or(1500);
     let steps: Vec<Value> = jarr(item, "steps").to_vec();
+    let client_full = jstr(item, "client") == "full";
 
     let sh = Arc::new(Shared { m: Mutex::new(Ctl::default()), cv: Condvar::new() });
     install_hooks(sh.clone());
@@ -241,8 +264,19 @@ pub fn session_item(item: &Value) -> Value {
     let pending_r = pending.clone();
     let synced: Arc<Mutex<std::collections::HashSet<u64>>> = Arc::new(Mutex::new(Default::default()));
     let synced_r = synced.clone();
+    let cli_w_r = cli_w.clone();
     let reader = rt.spawn(async move {
         while let Some(msg) = read_frame(&mut cli_r).await {
+            if msg.get("id").is_some() && msg.get("method").is_some() {
+                // a request of the server to the client (refresh, configuration, ...): a well-behaved client answers at once
+                let reply = json!({"jsonrpc": "2.0", "id": msg["id"].clone(), "result": Value::Null});
+                let mut w = cli_w_r.lock().await;
+                let _ = w.write_all(&frame(&reply)).await;
+                let _ = w.flush().await;
+                drop(w);
+                sh_r.m.lock().unwrap().events.push(json!({"ev": "ServerRequest", "method": msg["method"].clone()}));
+                continue;
+            }
             if let Some(idv) = msg.get("id").and_then(|i| i.as_u64()) {
                 if idv >= 900_000 && msg.get("method").is_none() {
                     // response to a verif/sync barrier request: not part of the observed trace
@@ -274,7 +308,9 @@ pub fn session_item(item: &Value) -> Value {
     // handshake (not under control)
     methods.lock().unwrap().insert(0, ("initialize".into(), "".into()));
     rt.block_on(async {
-        let init = json!({"jsonrpc": "2.0", "id": 0, "method": "initialize", "params": {"capabilities": {}}});
+        // client "full": the capabilities an editor such as VS Code announces; otherwise none at all
+        let caps = if client_full { full_client_capabilities() } else { json!({}) };
+        let init = json!({"jsonrpc": "2.0", "id": 0, "method": "initialize", "params": {"capabilities": caps}});
         let mut w = cli_w.lock().await;
         w.write_all(&frame(&init)).await.unwrap();
         w.flush().await.unwrap();
@@ -344,18 +380,27 @@ pub fn session_item(item: &Value) -> Value {
     for st in &steps {
         let op = jstr(st, "op");
         match op {
-            "open" | "change" => {
+            "open" | "change" | "reopen" => {
                 let file = jstr(st, "file");
                 let text = jstr(st, "text");
                 let v = ju64(st, "v");
-                let msg = if op == "open" {
+                if op == "reopen" {
+                    // the editor closes the document and opens it again (same text): didClose, then didOpen
+                    let close = json!({"jsonrpc": "2.0", "method": "textDocument/didClose", "params": {"textDocument": {"uri": uri_of(&dir, file)}}});
+                    rt.block_on(async {
+                        let mut w = cli_w.lock().await;
+                        w.write_all(&frame(&close)).await.unwrap();
+                        w.flush().await.unwrap();
+                    });
+                }
+                let msg = if op != "change" {
                     json!({"jsonrpc": "2.0", "method": "textDocument/didOpen", "params": {"textDocument":
                         {"uri": uri_of(&dir, file), "languageId": "tablegen", "version": v, "text": text}}})
                 } else {
                     json!({"jsonrpc": "2.0", "method": "textDocument/didChange", "params": {"textDocument":
                         {"uri": uri_of(&dir, file), "version": v}, "contentChanges": [{"text": text}]}})
                 };
-                sh.m.lock().unwrap().events.push(json!({"ev": if op == "open" {"Open"} else {"Change"}, "file": file, "v": v}));
+                sh.m.lock().unwrap().events.push(json!({"ev": if op != "change" {"Open"} else {"Change"}, "file": file, "v": v}));
                 rt.block_on(async {
                     let mut w = cli_w.lock().await;
                     w.write_all(&frame(&msg)).await.unwrap();
